@@ -97,7 +97,8 @@ def impl(case):
 
 def impl_listby(case, t, cols, n, nans):
     by = case['by']
-    st, L = call(lambda: t.listby(*by))
+    st, L = call(lambda: t.listby(list(by)) if case.get('bylist') else t.listby(*by))            # keys as arguments or as one list
+    if not by: by = cols                                             # listby() groups on all columns
     if st != 'ok':
         return {'status': st, 'obs': ['ERR', st], 'viol': 'listby raised %s on %s' % (st, json.dumps(case)[:300])}
     st2, U = call(lambda: L.unlist())
@@ -126,7 +127,11 @@ def impl_listby(case, t, cols, n, nans):
                 got = L[c][g]
                 if (not isinstance(got, list) or [V.canon(x, nans) for x in got] != exp) and viol is None:
                     viol = 'listby cell %s of key %r is %r, the values of that key in original order are %r' % (c, lkeys[g], got, [t[c][i] for i in members])
-    if viol is None:
+    if viol is None and not other:
+        # every column is a key (outside the property's "proper subset"): nothing to spread, unlist must leave the distinct rows alone
+        if st2 != 'ok' or ctable(U, nans) != ctable(L, nans):
+            viol = 'unlist of a listby on all columns changed it'
+    elif viol is None:
         if st2 != 'ok':
             viol = 'unlist raised %s' % st2
         elif sorted(U.keys()) != sorted(cols) or len(U) != n:
@@ -142,7 +147,9 @@ def impl_listby(case, t, cols, n, nans):
 
 def impl_groupby(case, t, cols, n, nans):
     by = case['by']
-    st, G = call(lambda: t.groupby(*by))
+    grp = case.get('grp', 'grp')                                     # name of the column of sub-tables
+    kw = {} if grp == 'grp' else {'grp': grp}
+    st, G = call(lambda: t.groupby(list(by), **kw) if case.get('bylist') else t.groupby(*by, **kw))
     allkeys = len(set(by)) == len(cols) or len(by) == 0
     if st != 'ok':
         ok = st == 'ValueError' and allkeys and n > 0
@@ -150,10 +157,10 @@ def impl_groupby(case, t, cols, n, nans):
     if n == 0:
         c = ctable(G, nans)
         return {'status': 'ok', 'obs': [c, [], c], 'viol': None if len(G) == 0 else 'groupby of an empty table is not empty'}
-    if 'grp' not in G.keys():
+    if grp not in G.keys():
         return {'status': 'ok', 'obs': ['ERR', 'nogrp'], 'viol': 'groupby returned no grp column'}
-    subs = list(G['grp'])
-    st2, UG = call(lambda: G.ungroup())
+    subs = list(G[grp])
+    st2, UG = call(lambda: G.ungroup() if grp == 'grp' else G.ungroup(grp))
     KT = G[list(by)]
     obs = [ctable(KT, nans), [ctable(s, nans) for s in subs], ctable(UG, nans) if st2 == 'ok' else ['ERR', st2]]
     viol = None
@@ -190,7 +197,9 @@ def label(y):
 def impl_pivot(case, t, cols, n, nans):
     x, y, z, a = case['x'], case['y'], case['z'], case['agg']
     xarg = list(x) if (len(x) > 1 or case.get('xlist')) else x[0]          # x as a list of names or as one string
-    st, P = call(lambda: t.xyz(xarg, y, z, py_agg(a)))
+    f0 = py_agg(a)
+    aggarg = [f0] if (case.get('agglist') and f0 is not None) else f0       # agg as a callable or a list of callables
+    st, P = call(lambda: (t.pivot if case.get('alias') else t.xyz)(xarg, y, z, aggarg))
     if st != 'ok':
         return {'status': st, 'obs': ['ERR', st], 'viol': 'xyz raised %s on %s' % (st, json.dumps(case)[:300])}
     if case.get('nounpivot'):
@@ -252,8 +261,8 @@ def nontrivial(case, result):
 def shape(case):
     k = case['kind']
     if k == 'pivot':
-        return 'pivot:x%d%s:%s%s' % (len(case['x']), 'list' if case.get('xlist') else '', case['agg'], ':floaty' if case.get('nounpivot') else '')
-    return '%s:by%d/%d%s' % (k, len(case['by']), len(case['cols']), ':big' if 'lane' in case else '')
+        return 'pivot:x%d%s:%s%s' % (len(case['x']), 'list' if case.get('xlist') else '', case['agg'], (':floaty' if case.get('nounpivot') else '') + (':big' if case.get('big') else ''))
+    return '%s:by%d/%d%s%s' % (k, len(case['by']), len(case['cols']), ':list' if case.get('bylist') else '', ':big' if 'lane' in case else '')
 
 # ------------------------------------------------------------------ generation
 def share_nan(cells):
@@ -295,6 +304,8 @@ def rand_pivot(rng, tier):
     case = {'kind': 'pivot', 'cols': cols, 'x': x, 'y': 'yy', 'z': 'zz', 'agg': agg}
     if len(x) == 1 and rng.random() < 0.4:
         case['xlist'] = True
+    if rng.random() < 0.25: case['agglist'] = True
+    if rng.random() < 0.3: case['alias'] = True
     if any(v[0] == 'f' for v in dict(cols)['yy']):
         case['nounpivot'] = True             # a float y stays a float column key; unpivot would return the float, not its label
     return case
@@ -325,12 +336,22 @@ def gen_cases(rng, tier):
                 by = list(names)                                    # all columns: ValueError
             else:
                 by = rng.sample(names, rng.randrange(1, len(names)))
-            cases.append({'kind': kind, 'cols': cols, 'by': by})
+            if r > 0.97 and n > 0:
+                by = []                                             # no keys given: all columns (listby: distinct rows; groupby: ValueError)
+            c = {'kind': kind, 'cols': cols, 'by': by}
+            if by and rng.random() < 0.2: c['bylist'] = True
+            if kind == 'groupby' and rng.random() < 0.2: c['grp'] = 'g2'
+            cases.append(c)
     for _ in range(800 if q else 9000):
         cases.append(rand_pivot(rng, tier))
     for i in range(12 if q else 60):                      # large tables: more than 100 rows, few keys, heavy duplication
         cases.append(rand_big(rng, 'listby', i))
         cases.append(rand_big(rng, 'groupby', i))
+    for i in range(6 if q else 30):                       # large pivots: few x keys and y labels, many rows per cell
+        n = rng.randrange(101, 251)
+        cols = [['name', [['i', rng.randrange(0, 4)] for _ in range(n)]], ['yy', [rng.choice([['s', 'am'], ['s', 'p'], ['i', 10], ['i', 9]]) for _ in range(n)]],
+                ['zz', [['i', j] for j in range(n)]]]
+        cases.append({'kind': 'pivot', 'cols': cols, 'x': ['name'], 'y': 'yy', 'z': 'zz', 'agg': rng.choice([None, 'last', 'first', 'len', 'sum']), 'big': True})
     return cases
 
 def shrink(case):
